@@ -158,6 +158,8 @@ def _add_histories(scs, rng, frac=0.4):
     for sc in scs:
         if "pre" not in sc and rng.random() < frac:
             sc["pre"] = [rng.choice(PRE_OPS) for _ in range(rng.randint(1, 4))]
+            # the masks are written at a random point of the history (calls before it see the fresh model)
+            sc["pre"].insert(rng.randint(0, len(sc["pre"])), "set_masks")
         if "variant" not in sc:
             # autoconvert on (default) / off with user-placed PIT layers / exclusion by type instead of by name
             sc["variant"] = rng.choices(["auto", "manual", "types"], weights=[6, 3, 1])[0]
